@@ -21,7 +21,7 @@ def jobs_for(carts):
 
 
 def run(prop, tier, only, explanation, bounds):
-    ck = Check(prop, tier, ['memory', 'ppu', 'oam'], bodies='image,image/color,math/bits')
+    ck = Check(prop, tier, ['memory', 'ppu', 'oam', 'timer'], bodies='image,image/color,math/bits')
     ck.bounds = bounds
     ck.assumptions = ['component invariants: lcdInv+palette (C13), DMA engine (C17), timer reload bookkeeping (C12), joypad nibbles (C22), APU field ranges (C18), RTC ranges (C10), cartridge controller registers (C08/C09)']
     carts = ['none'] if tier == 'quick' else list(CARTS)
@@ -31,11 +31,13 @@ def run(prop, tier, only, explanation, bounds):
     ck.run([('memory', 'VerifCycleFrame', dict(CARTS[c], what=w)) for c in carts for w in range(4)], timeout_ms=600000, max_unwind=64, setup=common_jobs.stub_render)
     # invariants assumed above and not owned by another package's check run here: the OAM corruption window (C17 part B)
     ck.run([('ppu', e, {}) for e in ('VerifOamWindowInit', 'VerifOamWindowStep', 'VerifOamWindowLCDC')], timeout_ms=300000, setup=common_jobs.stub_render)
+    # TIMA/TMA/TAC/DIV read-back over sequences (incl. the reload window and a stopped timer) is the timer lemma of C12
+    ck.run([('timer', 'VerifTimerSeq', {'k': 5}), ('timer', 'VerifTimerInd', {}), ('timer', 'VerifTimerInit', {})], timeout_ms=300000)
     ck.finish(explanation=explanation)
 
 
 def main(tier):
-    run('C06', tier, r'^(rb-|frame-|window-)', 'one write through the real Mapper from every machine state, then the documented read-back of the written location',
+    run('C06', tier, r'^(rb-|frame-|window-|div|tima|tma|tac|irq|relation)', 'one write through the real Mapper from every machine state, then the documented read-back of the written location',
         {'write address': 'configuration: each plain range with a symbolic address inside it (ROM, VRAM, cartridge RAM, work RAM, echo, OAM, FEA0-FEFF, high RAM, unmapped I/O, wave RAM) and each of the 49 I/O registers; value symbolic',
          'state': 'every component arbitrary under its invariant (PPU at any frame position, LCD on or off; APU on or off; DMA idle or running; timer in any phase)',
          'cartridge': 'quick: ROM-only; thorough: ROM-only, MBC1, MBC2, MBC3, MBC5',
